@@ -131,6 +131,12 @@ def build_scenario(tmpdir, variant):
     def forbidden():
         raise Forbidden('no')
 
+    def boom_surr():
+        raise ValueError(u'cannot read caf\udce9.txt')       # a file name decoded with surrogateescape
+
+    def forbidden_surr():
+        raise Forbidden(u'no access to caf\udce9.txt')
+
     def posted(request):
         return Response(b'posted %d' % len(request.get_data()))
     fpath = os.path.join(tmpdir, 'served.txt')
@@ -138,6 +144,7 @@ def build_scenario(tmpdir, variant):
     routes = [('/sjson', ctx, JSONRender(streaming=True)), ('/sjsonp', ctx, JSONPRender(streaming=True)),
               ('/jsond', ctx, render_json_dev),
               ('/resp', resp), ('/stream', stream), ('/ctx', ctx, render_basic), StaticFileRoute('/file', fpath),
+              ('/boomsurr', boom_surr), ('/forbsurr', forbidden_surr),
               ('/static', StaticApplication(tmpdir)), ('/branch/', resp), ('/item/<x>/', resp), ('/boom', boom), ('/forbidden', forbidden),
               POST('/post', posted), ('/meta', MetaApplication())]
     mws = {'plain': [], 'gzip': [GzipMiddleware()], 'cache': [HTTPCacheMiddleware()], 'debug': [],
@@ -145,7 +152,7 @@ def build_scenario(tmpdir, variant):
     return Application(routes, middlewares=mws, debug=(variant == 'debug'))
 
 
-PATHS = ['/sjson', '/sjsonp', '/jsond', '/item/a\x01b', '/item/\x7f/', '/item/tab\there', '/resp', '/stream', '/ctx', '/file', '/static/served.txt', '/static/noext', '/static/missing', '/branch', '/boom',
+PATHS = ['/boomsurr', '/forbsurr', '/sjson', '/sjsonp', '/jsond', '/item/a\x01b', '/item/\x7f/', '/item/tab\there', '/resp', '/stream', '/ctx', '/file', '/static/served.txt', '/static/noext', '/static/missing', '/branch', '/boom',
          '/forbidden', '/post', '/meta/', '/meta/json/', '/nothing/here', '/static/../x']
 METHODS = ['GET', 'HEAD', 'POST', 'OPTIONS']
 MTIME = 1500000000
@@ -228,7 +235,7 @@ def run_kinds(acc, i, n, tier):
 
 def expected_wrapper_order(outer, inner, embedded):
     """outer/inner: lists of (type, tag); returns list of tags outermost first."""
-    uniq = {'U1': True, 'U2': True, 'V': False}
+    uniq = {'U1': True, 'U2': True, 'V': False, 'U1s': True}
     out = []
     for t, tag in outer + (inner if embedded else []):
         if uniq[t] and any(x[0] == t for x in out):
@@ -280,12 +287,17 @@ def run_wrappers(acc, i, n, tier):
             self.tag = tag
             self.wsgi_wrapper = FalsyCallable(tag)
     CLS = {'U1': mkcls('U1', True), 'U2': U2, 'V': mkcls('V', False)}
+
+    class U1s(CLS['U1']):
+        # a subclass of U1: a unique type of its own
+        pass
+    CLS['U1s'] = U1s
     maxlen = 3 if tier == 'quick' else 4
     stacks = [()]
     for L in range(1, maxlen + 1):
-        stacks += list(itertools.product(('U1', 'U2', 'V'), repeat=L))
+        stacks += list(itertools.product(('U1', 'U2', 'V', 'U1s'), repeat=L))
     # no duplicate unique type inside one list (not generated, see C03)
-    stacks = [s for s in stacks if s.count('U1') <= 1 and s.count('U2') <= 1]
+    stacks = [s for s in stacks if s.count('U1') <= 1 and s.count('U2') <= 1 and s.count('U1s') <= 1]
     k = 0
     for outer_s in stacks:
         for inner_s in (stacks if tier == 'thorough' else [s for s in stacks if len(s) <= 2]):
